@@ -317,12 +317,12 @@ PROPS = {
         "trusted": COMMON_TRUSTED + [
             "translator translate/flags.py (bitflags! block and Default impl of flags.rs); cross-checked on every run by the exhaustive 256-byte from_bits stream",
             "modelled by hand: AuthenticatorData::{new,set_flags,set_attested_credential_data,set_*_extensions,to_vec,from_slice}, AttestedCredentialData::{new,into_iter,from_reader}",
-            "third-party CBOR code (ciborium reader, coset CoseKey parse/serialise) enters the theorems as an interface: a reader that consumes exactly one item and accepts no proper prefix of an item; the driver instantiates it with the Lean CBOR scanner (Base/Cbor.lean)",
+            "third-party CBOR code (ciborium reader, coset CoseKey parse/serialise) enters the theorems as an interface: a reader that consumes exactly one item and accepts no proper prefix of an item. The RFC 8949 reader the driver runs in its place (Base/Cbor.lean, Model/AuthDataCbor.lean) is PROVED to meet that interface (C12_cbor_reader: decode(encode x ++ rest) = (x, rest) and every proper prefix of encode x is refused, for every well-formed item of depth <= 256); that ciborium itself behaves like this reader is checked by the correspondence stream only",
             "SHA-256 of the RP ID is computed by Base/Sha256.lean (an oracle; nothing is proved about it)",
         ],
         "assumptions": ["ciborium/coset re-serialise a decoded canonical item to the same bytes (used when comparing decoded keys and extension values)",
                         "values are built with the provided constructor and setters (set_flags only with UP/UV/BE/BS)"],
-        "level_text": "Kernel-checked for all values: the encoding is exactly the WebAuthn concatenation with AT forced on when the attested section is present; AT/ED are set exactly when the sections are present for every value built with the constructor and setters; decode(encode a) = a (absent counter reads back as zero) for every well-formed value and every CBOR reader meeting the interface; inputs shorter than 37 bytes, with reserved bits, or with a flagged section cut anywhere are rejected; ids above 65535 bytes are refused. The model is tied to attestation_fmt.rs by a differential stream (encodings, every truncation) and the executable Spec is evaluated on the implementation's bytes, including single-byte corruptions.",
+        "level_text": "Kernel-checked for all values: the encoding is exactly the WebAuthn concatenation with AT forced on when the attested section is present; AT/ED are set exactly when the sections are present for every value built with the constructor and setters; decode(encode a) = a (absent counter reads back as zero) for every well-formed value and every CBOR reader meeting the interface, and the RFC 8949 reader run by the driver is proved to be one (round trip and prefix-freeness of the CBOR encoding by mutual induction over items); inputs shorter than 37 bytes, with reserved bits, or with a flagged section cut anywhere are rejected; ids above 65535 bytes are refused. The model is tied to attestation_fmt.rs by a differential stream (encodings, every truncation) and the executable Spec is evaluated on the implementation's bytes, including single-byte corruptions.",
         "level_note": "Trusted: Lean kernel; axioms propext/Classical.choice/Quot.sound; the hand model (checked on explored inputs); ciborium/coset behave as a one-item prefix-free reader; Spec = WebAuthn §6.1/§6.5.1.",
         "rule": "all 256 flag bytes; id lengths 0,1,16,255,256,65535,65536 x extension shapes; all 16 user-flag subsets; 300 (thorough 3000) random values; every (quick: every third) truncation of valid encodings; single-byte corruptions and arbitrary bytes judged by the Spec only.",
     },
